@@ -28,6 +28,8 @@ import (
 )
 
 type partState struct {
+	dead   atomic.Bool // the WAL garbage collector removed the partition
+	polled atomic.Int64
 	key    partKey
 	inner  replica.Partition
 	outer  replica.Partition
@@ -64,6 +66,8 @@ type driver struct {
 	curFlush  *flushRec
 	real      *realTracker
 	rejectN   atomic.Int64
+	gate      *gcGate
+	gcMu      sync.Mutex
 	resMu     sync.Mutex
 	cursor    map[partKey]int64
 	payloads  map[partKey]map[string]int
@@ -88,7 +92,14 @@ func (d *driver) problem(format string, args ...interface{}) {
 
 func walConfig() config.WAL {
 	cfg := config.GlobalStorageConfig().WAL
-	cfg.RemoveTaskInterval = ltoml.Duration(1000 * time.Hour) // log GC is driven by the history (Partition.IsExpire), not by a timer
+	cfg.RemoveTaskInterval = ltoml.Duration(1000 * time.Hour) // recovery: no garbage collect task
+	return cfg
+}
+
+// walConfigGC: the manager's garbage collect task ticks every few milliseconds; what it does is gated by gcGate.
+func walConfigGC() config.WAL {
+	cfg := config.GlobalStorageConfig().WAL
+	cfg.RemoveTaskInterval = ltoml.Duration(4 * time.Millisecond)
 	return cfg
 }
 
@@ -99,7 +110,11 @@ func skipBuffers(rel string) bool {
 
 // installPartitionFn makes the write-ahead log create real partitions around an observing family wrapper; the replica
 // loop is driven step-wise unless free is set.
-func installPartitionFn(register func(ps *partState), free bool) {
+func installPartitionFn(register func(ps *partState), free bool, gates ...*gcGate) {
+	var gate *gcGate
+	if len(gates) > 0 {
+		gate = gates[0]
+	}
 	replica.NewPartitionFn = func(ctx context.Context, shard tsdb.Shard, family tsdb.DataFamily, currentNodeID models.NodeID,
 		log queue.FanOutQueue, cliFct rpc.ClientStreamFactory, stateMgr coordstorage.StateManager) replica.Partition {
 		key := partKey{Shard: int(shard.ShardID()), Family: family.FamilyTime()}
@@ -108,11 +123,7 @@ func installPartitionFn(register func(ps *partState), free bool) {
 		register(ps) // before the partition exists: recovery observes the log as it was opened
 		inner := replica.NewPartition(ctx, shard, fw, currentNodeID, log, cliFct, stateMgr)
 		ps.inner = inner
-		if free {
-			ps.outer = inner
-		} else {
-			ps.outer = &stepPartition{Partition: inner}
-		}
+		ps.outer = &obsPartition{Partition: inner, stepped: !free, gate: gate, ps: ps}
 		return ps.outer
 	}
 }
@@ -136,7 +147,7 @@ func runHistory(idx int, dir, tier string, seed, t0 int64) *ledger {
 	if idx >= directedBase {
 		p = directedPlan(idx-directedBase, t0)
 	}
-	L := &ledger{Hist: idx, Seed: seed, Tier: tier, Mode: "step", T0: t0, Shards: p.Shards, Families: p.Families, Counters: map[string]int{}}
+	L := &ledger{Hist: idx, Seed: seed, Tier: tier, Mode: "step", T0: t0, Shards: p.Shards, Families: p.Families, Old: p.Old, Counters: map[string]int{}}
 	L.Config = fmt.Sprintf("shards=%d families=%d cycles=%v", p.Shards, len(p.Families), p.Cycles)
 	nodeDir := filepath.Join(dir, "node")
 	world := imgfs.NewWorld(nodeDir, filepath.Join(dir, "img"))
@@ -149,7 +160,7 @@ func runHistory(idx int, dir, tier string, seed, t0 int64) *ledger {
 		}
 		opKinds[kind]++
 	}
-	d := &driver{dir: dir, L: L, plan: p, world: world, parts: map[partKey]*partState{}, bySeq: map[partKey]map[int64]int{}, arrCh: make(chan func(), 4)}
+	d := &driver{dir: dir, L: L, plan: p, world: world, parts: map[partKey]*partState{}, bySeq: map[partKey]map[int64]int{}, arrCh: make(chan func(), 4), gate: &gcGate{}}
 	ic := &hookIC{world: world, before: d.before}
 	seam.NoFsync = true
 	seam.InstallKV(ic, nil)
@@ -180,9 +191,18 @@ func runHistory(idx int, dir, tier string, seed, t0 int64) *ledger {
 		ps.fam.afterWriteRows = d.afterWriteRows
 		ps.fam.onWriteRows = d.onWriteRows
 		ps.fam.onCommit = d.onCommit
+		ps.fam.skipAck = func() bool {
+			if ps.dead.Load() {
+				// lindb would store the acknowledgement into the unmapped page of the consumer group the garbage
+				// collector closed (the callback stays registered on the family)
+				d.count("ack_callbacks_for_a_partition_the_garbage_collector_removed", 1)
+				return true
+			}
+			return false
+		}
 		ps.fam.onAck = d.onAck
-	}, false)
-	d.mgr = replica.NewWriteAheadLogManager(d.ctx, walConfig(), selfNode, n.Engine, nil, nil)
+	}, false, d.gate)
+	d.mgr = replica.NewWriteAheadLogManager(d.ctx, walConfigGC(), selfNode, n.Engine, nil, nil)
 	d.wal = d.mgr.GetOrCreateLog(dbName)
 	// partitions: what the storage write handler does when the first write stream of a (shard, family, leader) arrives
 	for s := 0; s < p.Shards; s++ {
@@ -229,12 +249,18 @@ func (d *driver) runStep(s *planStep) {
 		d.runActions(s.Actions)
 	case "sync":
 		for _, key := range d.L.Parts {
-			// partition.IsExpire: FanOutQueue.Sync (queue ack = min consumer group ack) + Queue.GC
+			// partition.IsExpire: FanOutQueue.Sync (queue ack = min consumer group ack) + Queue.GC. (Old families are
+			// left to the garbage collect task: IsExpire stops the replicator of a drained partition of an old family.)
+			if key.Family == d.L.Old || d.parts[key].dead.Load() {
+				continue
+			}
 			if d.parts[key].inner.IsExpire() {
 				d.problem("partition %s of a current family reported expired", key)
 			}
 		}
 		d.count("log_sync_gc", 1)
+	case "gc":
+		d.walGC()
 	case "meta":
 		rec := d.beginFlush(s)
 		if err := d.n.DB.FlushMeta(); err != nil {
@@ -445,7 +471,7 @@ func (d *driver) flushData(s *planStep) {
 		}
 		return rec
 	}
-	if len(s.Racing) > 0 && d.racingPossible(s.Racing) {
+	if len(s.Racing) > 0 && !ps.dead.Load() && d.racingPossible(s.Racing) {
 		// the flush checker's family.Flush starts while the local replicator is between WriteRows and CommitSequence
 		// of an entry (a legal schedule: the replicator holds no lock there)
 		ids := d.appendRows(s.Racing, 1, false)
@@ -614,6 +640,96 @@ func (d *driver) before(label string) {
 	}
 }
 
+// walGC opens the gate for the manager's garbage collect task until it has asked every live partition once and has
+// finished that pass (= started the next one), and notes which partitions it removed.
+func (d *driver) walGC() {
+	d.gcMu.Lock()
+	defer d.gcMu.Unlock()
+	type st struct {
+		ps     *partState
+		before int64
+	}
+	var live []st
+	for _, key := range d.L.Parts {
+		if ps := d.parts[key]; !ps.dead.Load() {
+			live = append(live, st{ps, ps.polled.Load()})
+		}
+	}
+	if len(live) == 0 {
+		return
+	}
+	d.gate.open.Store(true)
+	deadline := time.Now().Add(20 * time.Second) // watchdog
+	passDone := false
+	for !passDone && time.Now().Before(deadline) {
+		time.Sleep(time.Millisecond)
+		all := true
+		for _, l := range live {
+			if l.ps.polled.Load() == l.before && !l.ps.dead.Load() {
+				all = false
+			}
+		}
+		if !all {
+			continue
+		}
+		// every partition was asked; the pass (stop, close, remove of the expired ones) is over when the task asks again
+		mark := d.gate.polls.Load()
+		for time.Now().Before(deadline) {
+			stillLive := false
+			for _, l := range live {
+				if !l.ps.dead.Load() {
+					stillLive = true
+				}
+			}
+			if d.gate.polls.Load() > mark || !stillLive {
+				passDone = true
+				break
+			}
+			time.Sleep(time.Millisecond)
+		}
+	}
+	d.gate.open.Store(false)
+	if !passDone {
+		d.problem("garbage collect task did not complete a pass")
+	}
+	d.count("wal_garbage_collect_runs", 1)
+	for _, l := range live {
+		ps, key := l.ps, l.ps.key
+		if !ps.dead.Load() {
+			if key.Family == d.L.Old {
+				d.count("wal_garbage_collect_kept_a_partition_of_the_old_family", 1)
+			}
+			continue
+		}
+		// the directory is removed right after Close: wait for it (pacing)
+		for i := 0; i < 2000; i++ {
+			if _, err := os.Stat(ps.log.Path()); err != nil {
+				break
+			}
+			time.Sleep(time.Millisecond)
+		}
+		rec := removalRec{Part: key, Tick: d.nextTick(), Img: d.world.Count(), Appended: -1, Stored: -1}
+		d.mu.Lock()
+		for _, e := range d.L.Entries {
+			if e.Part == key && e.Seq > rec.Appended {
+				rec.Appended = e.Seq
+			}
+		}
+		d.mu.Unlock()
+		if seq, ok := ps.fam.DataFamily.GetState().AckSequences[selfNode]; ok {
+			rec.Stored = seq
+		}
+		d.mu.Lock()
+		d.L.Removals = append(d.L.Removals, rec)
+		d.L.Counters["log_partitions_removed_by_the_garbage_collector"]++
+		if rec.Stored < rec.Appended {
+			d.L.Counters["log_partitions_removed_with_unflushed_entries"]++
+		}
+		d.mu.Unlock()
+	}
+	d.world.Snapshot("wal-gc")
+}
+
 func (d *driver) runActions(acts []action) {
 	for i := range acts {
 		a := &acts[i]
@@ -623,6 +739,9 @@ func (d *driver) runActions(acts []action) {
 		case "replicate":
 			for _, key := range d.L.Parts {
 				ps := d.parts[key]
+				if ps.dead.Load() {
+					continue
+				}
 				for i := 0; (a.Steps < 0 || i < a.Steps) && ps.rep.Pending() > 0; i++ {
 					d.stepOnce(ps)
 				}
@@ -650,6 +769,18 @@ func (d *driver) appendRows(rows []rowRec, writers int, split bool, reject ...st
 			return nil
 		}
 		built = b
+	}
+	live := built[:0]
+	for _, b := range built {
+		if d.parts[b.part].dead.Load() {
+			d.count("entries_not_appended_because_their_partition_was_removed", 1)
+			continue
+		}
+		live = append(live, b)
+	}
+	built = live
+	if len(built) == 0 {
+		return nil
 	}
 	// entries the local replicator cannot apply, appended right behind the valid entries of the same partition
 	for _, kind := range reject {
@@ -743,6 +874,9 @@ func (d *driver) resolveSeqs(part partKey) {
 	d.resMu.Lock()
 	defer d.resMu.Unlock()
 	ps := d.parts[part]
+	if ps.dead.Load() {
+		return
+	}
 	if d.cursor == nil {
 		d.cursor = map[partKey]int64{}
 	}
